@@ -31,7 +31,7 @@ impl Rng {
 }
 
 const CHARS: &[&str] = &["a", "b", "z", "0", " ", "\u{7f}", "\0", "é", "ß", "\u{80}", "\u{7ff}", "€", "世", "\u{ffff}", "𝄞", "🦀", "\u{10ffff}"];
-const LENS: &[usize] = &[0, 1, 1, 2, 3, 5, 8, 13, 14, 15, 15, 16, 16, 16, 17, 17, 18, 20, 24, 31, 33, 48, 64];
+const LENS: &[usize] = &[0, 1, 1, 2, 3, 5, 8, 13, 14, 15, 15, 16, 16, 16, 17, 17, 18, 20, 24, 31, 33, 48, 64, 16, 17, 15, 100, 257];
 
 pub fn statics() -> Vec<Vec<u8>> {
     vec![
